@@ -29,6 +29,7 @@ fn dec_names(f: &str) -> Vec<String> {
 }
 
 pub fn run(key: &str, a: &[String], out: &mut Out) {
+    out.begin(key, a);
     match key {
         "C20.dot" => {
             let bdd = Bdd::from_string(&a[0]);
